@@ -496,6 +496,65 @@ func checkJSONTags(c *Ctx, rule string, pk *packages.Package) {
 		c.Check(nameObj != nil && okOwn, rule, "codescan.schemaBuilder.buildFromStruct › each field of a multi-name declaration keeps its own name", c.posOf(pk, fd.Pos()), "the default property name is taken from the types.Var being described",
 			"the property name comes only from parseJSONTag (first identifier of the declaration): for `X, Y float64` both fields are published as X and Y is missing although encoding/json writes it")
 	}
+	// an embedded field named by its json tag is a property of that name, not an inlined struct
+	if fd := load.FuncDecl(pk, "schemaBuilder.buildFromStruct"); fd != nil {
+		inlineSkipsNamed, plainKeepsNamed := false, false
+		ast.Inspect(fd.Body, func(n ast.Node) bool {
+			fs, ok := n.(*ast.ForStmt)
+			if !ok {
+				return true
+			}
+			text := nodeText(pk, fs.Body)
+			isEmbeddedLoop := strings.Contains(text, "!fld.Embedded()") || strings.Contains(text, "!fld.Anonymous()")
+			if isEmbeddedLoop {
+				// the name returned by parseJSONTag is bound and a `continue` is guarded by <name> != ""
+				var nameObj types.Object
+				ast.Inspect(fs.Body, func(m ast.Node) bool {
+					if as, ok := m.(*ast.AssignStmt); ok && len(as.Rhs) == 1 && len(as.Lhs) >= 2 {
+						if call, ok := as.Rhs[0].(*ast.CallExpr); ok {
+							if fn := goan.Callee(info, call); fn != nil && fn.Name() == "parseJSONTag" {
+								if id, ok := as.Lhs[0].(*ast.Ident); ok && id.Name != "_" {
+									nameObj = info.ObjectOf(id)
+								}
+							}
+						}
+					}
+					return true
+				})
+				if nameObj != nil {
+					goan.WalkGuards(info, fs.Body, func(m ast.Node, guards []goan.Lit, _ []ast.Stmt) {
+						if br, ok := m.(*ast.BranchStmt); ok && br.Tok == token.CONTINUE {
+							for _, g := range guards {
+								if be, ok := ast.Unparen(g.E).(*ast.BinaryExpr); ok && !g.Early && g.Pos && be.Op == token.NEQ && identIs(info, be.X, nameObj) {
+									if v, ok := goan.StringVal(info, be.Y); ok && v == "" {
+										inlineSkipsNamed = true
+									}
+								}
+							}
+						}
+					})
+				}
+				return true
+			}
+			// ordinary-field loop: the skip of embedded fields is conditional (on the tag name)
+			ast.Inspect(fs.Body, func(m ast.Node) bool {
+				ifs, ok := m.(*ast.IfStmt)
+				if !ok || len(ifs.Body.List) != 1 {
+					return true
+				}
+				if br, ok := ifs.Body.List[0].(*ast.BranchStmt); !ok || br.Tok != token.CONTINUE {
+					return true
+				}
+				if be, ok := ast.Unparen(ifs.Cond).(*ast.BinaryExpr); ok && be.Op == token.LAND && strings.Contains(nodeText(pk, be.X), ".Embedded()") {
+					plainKeepsNamed = true
+				}
+				return true
+			})
+			return true
+		})
+		c.Check(inlineSkipsNamed && plainKeepsNamed, rule, "codescan.schemaBuilder.buildFromStruct › an embedded field named by its tag is a property", c.posOf(pk, fd.Pos()), "not inlined when the tag names it; described by the ordinary-field loop",
+			fmt.Sprintf("an embedded struct is inlined whatever its json tag says (inlining loop skips named ones=%v, ordinary loop keeps named ones=%v): encoding/json nests an embedded Base tagged json:\"base\" under \"base\"", inlineSkipsNamed, plainKeepsNamed))
+	}
 	// parseJSONTag: the tag is looked at for every field, named or embedded (no return before
 	// the tag is read), and the tag literal — raw or interpreted — is decoded with strconv.Unquote
 	if fd := load.FuncDecl(pk, "parseJSONTag"); fd == nil {
